@@ -64,9 +64,22 @@ def lean_run(lines, timeout=1800):
 
 
 def theorems_in(relpath):
-    """[(name, first_line, last_line, statement_one_line)] of theorems in a Lean source file"""
+    """[(qualified_name, first_line, last_line, statement_one_line)] of theorems in a Lean source file"""
     src = (LEAN / relpath).read_text().split("\n")
-    starts = [(i, m.group(1)) for i, l in enumerate(src) for m in [re.match(r"^theorem\s+([A-Za-z0-9_'.]+)", l)] if m]
+    ns = []
+    starts = []
+    for i, l in enumerate(src):
+        m = re.match(r"^namespace\s+(\S+)", l)
+        if m:
+            ns.append(m.group(1))
+            continue
+        m = re.match(r"^end\s+(\S+)", l)
+        if m and ns and ns[-1] == m.group(1):
+            ns.pop()
+            continue
+        m = re.match(r"^theorem\s+([A-Za-z0-9_'.]+)", l)
+        if m:
+            starts.append((i, ".".join(ns + [m.group(1)])))
     out = []
     for k, (i, name) in enumerate(starts):
         end = starts[k + 1][0] - 1 if k + 1 < len(starts) else len(src) - 1
@@ -84,19 +97,33 @@ def strip_comments(text):
     return re.sub(r"--.*", "", text)
 
 
-def forbidden_scan():
+def import_closure(relpaths):
+    """project files (relative to lean/) reachable through `import N2k.…` from the given files"""
+    seen, todo = [], list(relpaths)
+    while todo:
+        f = todo.pop()
+        if f in seen or not (LEAN / f).exists():
+            continue
+        seen.append(f)
+        for m in re.finditer(r"^import\s+(N2k(?:\.\w+)+)", (LEAN / f).read_text(), flags=re.M):
+            todo.append(m.group(1).replace(".", "/") + ".lean")
+    return sorted(seen)
+
+
+def forbidden_scan(relpaths):
+    """forbidden tokens (outside comments) in the import closure of the given files"""
     hits = []
-    for p in sorted((LEAN / "N2k").rglob("*.lean")):
-        body = strip_comments(p.read_text())
+    for f in import_closure(relpaths):
+        body = strip_comments((LEAN / f).read_text())
         for n, l in enumerate(body.split("\n"), 1):
             if FORBIDDEN.search(l):
-                hits.append(f"{p.relative_to(LEAN)}:{n}: {l.strip()[:120]}")
+                hits.append(f"{f}:{n}: {l.strip()[:120]}")
     return hits
 
 
-def audit_axioms(module, names, namespace="N2k"):
-    """#print axioms for each theorem; returns {name: [axioms]} ; raises on failure"""
-    src = f"import {module}\n" + "".join(f"#print axioms {namespace}.{n}\n" for n in names)
+def audit_axioms(module, names):
+    """#print axioms for each (fully qualified) theorem; returns {name: [axioms]} ; raises on failure"""
+    src = f"import {module}\n" + "".join(f"#print axioms {n}\n" for n in names)
     tmp = LEAN / ".lake" / f"audit_{module.replace('.', '_')}_{os.getpid()}.lean"
     tmp.write_text(src)
     try:
@@ -106,7 +133,7 @@ def audit_axioms(module, names, namespace="N2k"):
     res = {}
     flat = re.sub(r"\s+", " ", out)
     for n in names:
-        m = re.search(r"'%s\.%s' (does not depend on any axioms|depends on axioms: \[([^\]]*)\])" % (re.escape(namespace), re.escape(n)), flat)
+        m = re.search(r"'%s' (does not depend on any axioms|depends on axioms: \[([^\]]*)\])" % re.escape(n), flat)
         if not m:
             raise RuntimeError(f"axiom audit failed for {n}: {out[-1500:]}")
         res[n] = [] if m.group(2) is None else [a.strip() for a in m.group(2).split(",") if a.strip()]
